@@ -478,25 +478,27 @@ structure OpRec where
   toks : List String
   evs : List Ev
   result : String
+  /-- broker set-up commands issued since the previous operation -/
+  setup : List (List String) := []
 deriving Repr
 
 /-- group trace lines into operations: OP …, events …, RESULT … -/
 def parseOps (lines : List String) : List OpRec :=
   let toksOf (l : String) : List String := (l.trimAscii.toString.splitOn " ").filter (· ≠ "")
-  let rec go : List (String × String) → Option (Nat × List String × List Ev) → Nat → List OpRec → List OpRec
-    | [], _, _, acc => acc.reverse
-    | (l, next) :: rest, cur, n, acc =>
+  let rec go : List (String × String) → Option (Nat × List String × List Ev) → List (List String) → Nat → List OpRec → List OpRec
+    | [], _, _, _, acc => acc.reverse
+    | (l, next) :: rest, cur, su, n, acc =>
       match toksOf l, cur with
-      | "OP" :: t, _ => go rest (some (n, t, [])) (n + 1) acc
-      | "RESULT" :: r, some (i, t, evs) => go rest none n (⟨i, t, evs.reverse, " ".intercalate r⟩ :: acc)
+      | "OP" :: t, _ => go rest (some (n, t, [])) su (n + 1) acc
+      | "RESULT" :: r, some (i, t, evs) => go rest none [] n (⟨i, t, evs.reverse, " ".intercalate r, su.reverse⟩ :: acc)
       | ["CONNECT", h, ok], some (i, t, evs) =>
         match fromHex h with
-        | some h => go rest (some (i, t, .connect h (ok == "ok") :: evs)) n acc
-        | none => go rest cur n acc
+        | some h => go rest (some (i, t, .connect h (ok == "ok") :: evs)) su n acc
+        | none => go rest cur su n acc
       | ["IO", h, what], some (i, t, evs) =>
         match fromHex h with
-        | some h => go rest (some (i, t, .io h what :: evs)) n acc
-        | none => go rest cur n acc
+        | some h => go rest (some (i, t, .io h what :: evs)) su n acc
+        | none => go rest cur su n acc
       | ["REQ", h, f], some (i, t, evs) =>
         match fromHex h, fromHex f with
         | some h, some f =>
@@ -504,10 +506,15 @@ def parseOps (lines : List String) : List OpRec :=
           let reply := match toksOf next with
             | ["RESP", p] => fromHex p
             | _ => none
-          go rest (some (i, t, .req h f reply :: evs)) n acc
-        | _, _ => go rest cur n acc
-      | _, _ => go rest cur n acc
-  go (lines.zip (lines.drop 1 ++ [""])) none 0 []
+          go rest (some (i, t, .req h f reply :: evs)) su n acc
+        | _, _ => go rest cur su n acc
+      | "RESP" :: _, _ => go rest cur su n acc
+      | ["NORESP"], _ => go rest cur su n acc
+      | "BAD" :: _, _ => go rest cur su n acc
+      | [], _ => go rest cur su n acc
+      | toks, none => go rest cur (toks :: su) n acc
+      | _, _ => go rest cur su n acc
+  go (lines.zip (lines.drop 1 ++ [""])) none [] 0 []
 
 /-- replay all operations; returns mismatch reports -/
 def replay (cx : Codecs) (comp : Nat → Bytes → Bytes) (debug : Bool) (ops : List OpRec) : List String :=
